@@ -49,7 +49,7 @@ class World:
         return dets
 
 
-def new_line(rng, kind, shards=None, vshards=None, hist=None, max_idle=None, method=None, minconf=0.05, constraints=None):
+def new_line(rng, kind, shards=None, vshards=None, hist=None, max_idle=None, method=None, minconf=None, constraints=None):
     shards = shards or rng.randint(1, 4)
     vshards = vshards or rng.randint(1, 3)
     hist = hist or rng.randint(1, 5)
@@ -57,6 +57,10 @@ def new_line(rng, kind, shards=None, vshards=None, hist=None, max_idle=None, met
     if method is None:
         method = ("iou", rng.choice([0.3, 0.3, 0.1, 0.5])) if rng.random() < 0.65 else ("maha",)
     m = "iou %s" % f32tok(method[1]) if method[0] == "iou" else "maha"
+    if minconf is None:
+        minconf = rng.choice([0.05, 0.05, 0.3, 0.6])
+    if constraints is None:
+        constraints = [] if rng.random() < 0.6 else [(g, rng.choice([0.3, 0.6, 1.0, 2.0])) for g in sorted(rng.sample(range(1, 5), rng.randint(1, 2)))]
     cons = constraints or []
     c = " ".join([str(len(cons))] + ["%d %s" % (g, f32tok(l)) for g, l in cons])
     return "trk new %s %d %d %d %d %s %s %s" % (kind, shards, vshards, hist, max_idle, m, f32tok(minconf), c)
@@ -96,3 +100,47 @@ def history(rng, kind, nsteps, nscenes=None, api_mix=True, **kw):
         elif r < 0.98: lines.append("trk setaw %d" % rng.choice([0, 1, 3, 100]))
         else: lines.append("trk epoch %d" % rng.randrange(nscenes))
     return lines
+
+
+def project(lines, scene):
+    """the sub-history that concerns `scene` only (global operations kept)"""
+    out = []
+    for l in lines:
+        t = l.split()
+        if t[1] == "new" or t[1] in ("wasted", "clearw", "setaw"):
+            out.append(l)
+        elif t[1] in ("skip", "idle", "epoch"):
+            if int(t[2]) == scene: out.append(l)
+        elif t[1] == "predict":
+            ns = int(t[2]); pos = 3; keep = []
+            for _ in range(ns):
+                sc = int(t[pos]); n = int(t[pos + 1])
+                body = t[pos:pos + 2 + 7 * n]
+                pos += 2 + 7 * n
+                if sc == scene: keep = body
+            if keep:
+                out.append("trk predict 1 " + " ".join(keep))
+    return out
+
+
+def scenes_of(lines):
+    s = set()
+    for l in lines:
+        t = l.split()
+        if t[1] == "predict":
+            ns = int(t[2]); pos = 3
+            for _ in range(ns):
+                s.add(int(t[pos])); pos += 2 + 7 * int(t[pos + 1])
+    return sorted(s)
+
+
+def with_projections(lines):
+    """slot 0: the interleaved history; slot 1+i: its projection onto scene i; then the comparisons"""
+    out = ["trk sel 0"] + lines
+    sc = scenes_of(lines)
+    for i, s in enumerate(sc):
+        out.append("trk sel %d" % (i + 1))
+        out += project(lines, s)
+    for i, s in enumerate(sc):
+        out.append("trk cmp 0 %d %d" % (i + 1, s))
+    return out
